@@ -64,6 +64,19 @@ func (p *bufPipe) Close() error {
 	return nil
 }
 
+// trickleEnd limits every Read to a few bytes: read boundaries then fall at every offset of a frame
+type trickleEnd struct {
+	*duplexEnd
+	max int
+}
+
+func (t *trickleEnd) Read(p []byte) (int, error) {
+	if len(p) > t.max {
+		p = p[:t.max]
+	}
+	return t.duplexEnd.Read(p)
+}
+
 // link returns the two ends of a duplex link: synchronous (io.Pipe) or buffered.
 func link(buffered bool) (a, b *duplexEnd) {
 	if buffered {
